@@ -553,6 +553,12 @@ func robustRequests(r *simcore.Run, w *worlds) {
 		case <-time.After(15 * time.Second):
 			// every request gets an answer: one that is still being served after 15 s of wall-clock time (nothing here
 			// waits for a remote party that long) hangs
+			if os.Getenv("VERIF_NOSHRINK") == "" && os.Getenv("VERIF_REPLAY") == "" {
+				// whatever hangs keeps hanging for the rest of this process (the worlds are shared by its runs): leave the
+				// batch; the driver re-executes this run in a process of its own, where the failure below is reported
+				fmt.Fprintf(os.Stderr, "request never answered in run %d: leaving the batch\n", r.Index)
+				os.Exit(3)
+			}
 			r.Fail("request-never-answered", entry, "the %s entry point did not answer %s %q with headers %q within 15 s", entry, w.reqMethod, trunc(path), fmt.Sprint(hdr))
 			return
 		}
